@@ -161,6 +161,23 @@ pub fn judge(prop: &str, cases_path: &str, events_path: &str) -> Leg {
             Ok(v) => v,
             Err(_) => continue,
         };
+        if let Some(qhex) = ev["malformed_query_hex"].as_str() {
+            // a datagram the server cannot parse: silence is fine, but whatever it does send must itself be a well-formed DNS
+            // message within the 512 octets of a client that advertised nothing
+            leg.eval();
+            leg.class(format!("malformed-query|{}", if ev["response_hex"].is_string() { "answered" } else { "silence" }));
+            if let Some(h) = ev["response_hex"].as_str() {
+                let resp = unhex(h);
+                let replay = json!({"engine": "c04-e2e", "malformed_query_hex": qhex, "response_hex": h});
+                if resp.len() > 512 {
+                    leg.violation("C04/response-exceeds-limit/udp", format!("{} octets in answer to an unparseable query of {} octets that advertised no EDNS size", resp.len(), qhex.len() / 2), replay);
+                } else if let Err(e) = rn::decode(&resp, true) {
+                    leg.violation("C04/response-malformed/udp", format!("answer to an unparseable query: {} ({} octets)", e, resp.len()), replay);
+                }
+                leg.count("malformed_queries_answered", 1);
+            }
+            continue;
+        }
         let case = match cases.get(&ev["case"].as_u64().unwrap_or(u64::MAX)) {
             Some(c) => c,
             None => continue,
